@@ -16,6 +16,7 @@ ASSUMPTIONS = ["event granularity only: contamination between two routines sched
 TIERS = {"quick": {"runs": 80}, "thorough": {"runs": 1500}}
 REQUIRED = ["update_events_checked", "optimizer_steps_exact", "warmup_iterations_observed"]
 REQUIRED_QUICK = REQUIRED
+CHUNK = 24  # TrainSim plans per fresh worker process
 SHRINK_LISTS = [["env", "script"]]
 SHRINK_INTS = []
 CLAUSES = ["C05", "C11.d"]
